@@ -203,6 +203,12 @@ void ThreePointsNumericalDerivative::updateDerivatives(const ParameterList& para
           }
           catch (ConstraintException& ce)
           {
+            // Put the wrapped function back at the requested point, with its analytical derivatives if any, before giving up:
+            if (function1_)
+              function1_->enableFirstOrderDerivatives(computeD1_);
+            if (function2_)
+              function2_->enableSecondOrderDerivatives(computeD2_);
+            function_->setParameters(parameters);
             throw Exception("ThreePointsNumericalDerivative::setParameters. Could not compute cross derivatives at limit.");
           }
 
